@@ -133,11 +133,6 @@ func createCompiledRouteHandler(route *ast.Route, bytecode []byte, wsHub *websoc
 			vmInstance.SetWebSocketHandler(wsHandler)
 		}
 
-		// Inject path parameters into VM locals
-		for key, value := range ctx.PathParams {
-			vmInstance.SetLocal(key, vm.StringValue{Val: value})
-		}
-
 		// Inject query parameters as 'query' object (and individual declared
 		// params) so compiled routes can read query.X the same as interpreted
 		// routes. Reuses interpreter.ProcessQueryParams to guarantee parity
@@ -250,6 +245,13 @@ func createCompiledRouteHandler(route *ast.Route, bytecode []byte, wsHub *websoc
 				}
 			}
 			vmInstance.SetLocal("auth", interfaceToValue(authData))
+		}
+
+		// Inject path parameters into VM locals - last, so that a parameter
+		// sharing its name with a built-in request variable or a declared
+		// query parameter (/search/:query) keeps the segment it was declared for
+		for key, value := range ctx.PathParams {
+			vmInstance.SetLocal(key, vm.StringValue{Val: value})
 		}
 
 		// Execute compiled bytecode
